@@ -35,6 +35,9 @@ type TypeSpec struct {
 	// other fields (0 = first, as in the library's own examples; larger
 	// values wrap around).
 	IDPos int
+	// Struct-backed types only: the ID field is promoted from an embedded
+	// struct (struct{ Base; ... }, Base struct{ ID string `...` }).
+	EmbedID bool
 }
 
 // SchemaSpec is a generated schema together with its description.
@@ -98,6 +101,9 @@ func (ts TypeSpec) String() string {
 	impl := "soft"
 	if ts.Struct {
 		impl = "struct"
+		if ts.EmbedID {
+			impl = "struct,embedded-id"
+		}
 	} else if ts.Derived {
 		impl = "soft,derived"
 	}
@@ -224,6 +230,10 @@ func StructTypeOf(ts *TypeSpec) reflect.Type {
 	pos := 0
 	if ts.IDPos > 0 {
 		pos = ts.IDPos % (len(fields) + 1)
+	}
+
+	if ts.EmbedID {
+		idField = reflect.StructField{Name: "Base", Anonymous: true, Type: reflect.StructOf([]reflect.StructField{idField})}
 	}
 
 	fields = append(fields[:pos:pos], append([]reflect.StructField{idField}, fields[pos:]...)...)
@@ -523,6 +533,8 @@ func CoherentSchema(t *rapid.T, o SchemaOpts) *SchemaSpec {
 		if rapid.IntRange(0, 2).Draw(t, "idpos-any") == 0 {
 			specs[i].IDPos = rapid.IntRange(1, 9).Draw(t, "idpos")
 		}
+
+		specs[i].EmbedID = rapid.IntRange(0, 5).Draw(t, "embedid") == 0
 
 		if o.AllKindsChance > 0 && rapid.IntRange(1, o.AllKindsChance).Draw(t, "allkinds") == 1 {
 			specs[i].Attrs = AllKindAttrs()
